@@ -216,6 +216,9 @@ def deductive(ctx):
 
     res = verify(ctx, SC.contract())
     summarize(ctx, res)
+    from contracts import state_validation as SV
+
+    summarize(ctx, verify(ctx, SV.contract()))
 
 
 def run(ctx):
